@@ -206,11 +206,13 @@ func (b Bytes) With(value Value) Set {
 func (b Bytes) Without(value Value) Set {
 	if pos, byt, ok := isBytesTuple(value); ok {
 		if i := b.index(pos); i >= 0 && i < len(b.b) && byt == b.b[i] {
-			if pos == b.offset+i {
-				if bytes := b.b[:i]; len(bytes) > 0 {
-					return Bytes{b: bytes, offset: b.offset}
-				}
+			switch {
+			case len(b.b) == 1:
 				return None
+			case i == len(b.b)-1:
+				return Bytes{b: b.b[:i], offset: b.offset}
+			case i == 0:
+				return Bytes{b: b.b[1:], offset: b.offset + 1}
 			}
 			return newGenericSetFromSet(b).Without(value)
 		}
